@@ -1357,7 +1357,7 @@ loop:
 		case FrameSettings:
 			st := fr.Body().(*Settings)
 			if !st.IsAck() { // if it has ack, just ignore
-				c.handleSettings(st)
+				c.handleSettings(fr, st)
 			}
 		case FrameWindowUpdate:
 			c.addWindow(0, int32(fr.Body().(*WindowUpdate).Increment()))
@@ -1418,15 +1418,18 @@ func (c *Conn) writePing() error {
 	return err
 }
 
-func (c *Conn) handleSettings(st *Settings) {
-	st.CopyTo(&c.serverS)
+func (c *Conn) handleSettings(recv *FrameHeader, st *Settings) {
+	// Parameters the frame does not name keep their value (RFC 7540 6.5.3):
+	// the payload is applied on top of what the server has set so far. Copying
+	// the decoded body would reset them to the defaults it starts out from.
+	_ = c.serverS.Read(recv.payload)
 
 	atomic.StoreUint32(&c.maxStreams, c.serverS.MaxConcurrentStreams())
 	atomic.StoreUint32(&c.maxFrameSize, c.serverS.MaxFrameSize())
 
 	// The encoder belongs to the write loop, so the new table size is handed
 	// over rather than applied here.
-	atomic.StoreUint32(&c.encTableSize, st.HeaderTableSize())
+	atomic.StoreUint32(&c.encTableSize, c.serverS.HeaderTableSize())
 
 	// A change to SETTINGS_INITIAL_WINDOW_SIZE applies to every stream that is
 	// already open, as a delta on what it has left.
